@@ -404,6 +404,30 @@ def fx_job(j):
             evs.append({"op": "save", "post": picture(t3), "re": picture(Document(tmp).sheets[si].tables[ti])})
             os.remove(tmp)
             out.append({"init": pic, "ev": evs, "meta": {"fixture": os.path.basename(path), "sheet": si, "table": ti, "edit": evs[0]["op"]}})
+        # ... and they disappear with their rows: every row that belongs to a merged rectangle is deleted (whole rectangles, bottom-up);
+        # the table, now without any merge, is saved and must reopen without any
+        for si, ti, pic in pics:
+            if pic["bad"] or pic["nr"] * pic["nc"] > 1500 or not pic["ranges"]:
+                continue
+            spans = sorted([r[0], r[2]] for r in pic["ranges"])
+            merged = [spans[0]]
+            for a, b in spans[1:]:
+                if a <= merged[-1][1]:
+                    merged[-1][1] = max(merged[-1][1], b)
+                else:
+                    merged.append([a, b])
+            if sum(b - a + 1 for a, b in merged) >= pic["nr"]:
+                continue
+            d3 = Document(path)
+            t3 = d3.sheets[si].tables[ti]
+            evs = []
+            for a, b in reversed(merged):
+                t3.delete_row(b - a + 1, start_row=a - 1)
+                evs.append({"op": "delrow", "n": b - a + 1, "at": a, "post": picture(t3)})
+            d3.save(tmp)
+            evs.append({"op": "save", "post": picture(t3), "re": picture(Document(tmp).sheets[si].tables[ti])})
+            os.remove(tmp)
+            out.append({"init": pic, "ev": evs, "meta": {"fixture": os.path.basename(path), "sheet": si, "table": ti, "edit": "delete-all-merged-rows"}})
     except Exception as e:  # noqa: BLE001
         out.append({"init": {"nr": 1, "nc": 1, "anchors": [], "place": [], "ranges": [], "cells": [], "bad": 0},
                     "ev": [{"op": "save", "exc": type(e).__name__, "post": {"nr": 0, "nc": 0, "anchors": [], "place": [], "ranges": [], "cells": [], "bad": 99},
